@@ -591,6 +591,56 @@ fn main() {
         }
     }
 
+    // ---------------------------------------------------------------- `^` whichever way the operands are written
+    // base in a variable / parameter / array element with the exponent as a LITERAL (PowerFloatImm), against the
+    // exponent in a variable, x.pow(y), power_float, Num.power — all bit-exactly the host's f64::powf
+    {
+        let fbits = |x: f64| x.to_bits();
+        let exps: Vec<u64> = [2.0, 3.0, 4.0, -1.0, -2.0, 0.5, 10.0, 64.0, 65.0, 1.5, 0.0, 1.0, -3.0, 63.0, -64.0, 5.0, 7.0, -0.5, 100.0]
+            .iter().map(|e| fbits(*e)).collect();
+        let mut pw: Vec<(u64, u64)> = vec![
+            (fbits(1e155), fbits(-2.0)), (fbits(1e-155), fbits(2.0)), (fbits(1e154), fbits(2.0)), (fbits(1e155), fbits(2.0)),
+            (fbits(1.3), fbits(3.0)), (fbits(1e103), fbits(3.0)), (fbits(1e-108), fbits(3.0)), (fbits(-1.3), fbits(3.0)),
+            (fbits(1e77), fbits(4.0)), (fbits(2.0), fbits(64.0)), (fbits(2.0), fbits(65.0)), (fbits(0.5), fbits(64.0)),
+            (fbits(1.0000000000000002), fbits(64.0)), (fbits(1.0000000000000002), fbits(65.0)), (fbits(-0.0), fbits(-1.0)),
+            (fbits(0.0), fbits(-2.0)), (fbits(-0.0), fbits(3.0)), (fbits(-2.0), fbits(0.5)), (fbits(1e-320), fbits(2.0)),
+        ];
+        for b in [0.1, 0.3, 0.7, 1.2, 1.3, 2.3, -0.1, -2.3, 10.0, 3.0] {
+            for e in &exps { pw.push((fbits(b), *e)); }
+        }
+        for _ in 0..(if quick { 300 } else { 9000 }) {
+            // random mantissa, moderate exponent, either sign
+            let e = 1023 - 12 + ctx.rng.below(24);
+            let base = (ctx.rng.below(4) / 3 << 63) | (e << 52) | (ctx.rng.next() & ((1 << 52) - 1));
+            let ex = if ctx.rng.chance(4, 5) { *ctx.rng.pick(&exps[..9]) } else { *ctx.rng.pick(&exps) };
+            pw.push((base, ex));
+        }
+        if quick {
+            // keep the designed pairs, sample the grid
+            let keep = 19;
+            let mut sampled: Vec<(u64, u64)> = pw[..keep].to_vec();
+            for p in &pw[keep..] { if ctx.rng.chance(3, 4) { sampled.push(*p); } }
+            pw = sampled;
+        }
+        for (a, b) in pw {
+            let c = host_arith("pow", a, b);
+            let (la, lb) = (lit(a), lit(b));
+            let routes = ["imm", "param-imm", "elem-imm", "var", "method", "intrinsic", "intrinsic-imm", "num"];
+            let src = format!(
+                "fn f(p: float) -> float {{\n  p ^ {lb}\n}}\nlet x = {la}\nlet y = {lb}\nlet arr = [x, 1.0]\n\
+                 let r0 = x ^ {lb}\nprintln(r0)\nprintln(r0 < 0.0)\nlet r1 = f(x)\nprintln(r1)\nprintln(r1 < 0.0)\n\
+                 let r2 = arr[0] ^ {lb}\nprintln(r2)\nprintln(r2 < 0.0)\nlet r3 = x ^ y\nprintln(r3)\nprintln(r3 < 0.0)\n\
+                 let r4 = x.pow(y)\nprintln(r4)\nprintln(r4 < 0.0)\nlet r5 = power_float(x, y)\nprintln(r5)\nprintln(r5 < 0.0)\n\
+                 let r6 = power_float(x, {lb})\nprintln(r6)\nprintln(r6 < 0.0)\nlet r7 = Num.power(x, y)\nprintln(r7)\nprintln(r7 < 0.0)\n");
+            jobs.push(Job {
+                req: format!("f64 arith var pow {} {} {} #{}", hex64(a), hex64(b), hex64(c), routes.join(",")),
+                src, kind: "powroutes", form: "routes",
+                what: format!("{la} ^ {lb} ({} pow {})", hex64(a), hex64(b)),
+                spec: Some(format!("ok {}", render_bits(c))),
+            });
+        }
+    }
+
     // ---------------------------------------------------------------- unary minus
     let mut negs: Vec<u64> = set.clone();
     for _ in 0..(if quick { 40 } else { 1500 }) {
@@ -686,6 +736,21 @@ fn main() {
                 Outcome::Error(k) => format!("err {k}"),
                 o => format!("other {}", o.tag()),
             },
+            "powroutes" => {
+                match &r.outcome {
+                    Outcome::Done => {
+                        let ls: Vec<&str> = r.out.lines().collect();
+                        if ls.len() != 16 { return format!("other bad-output {:?}", r.out); }
+                        ls.chunks(2).map(|c| match c[0].parse::<f64>() {
+                            Ok(f) if f.is_nan() => format!("ok {}", if c[1] == "true" { "nan-" } else { "nan+" }),
+                            Ok(f) => format!("ok {}", hex64(f.to_bits())),
+                            Err(_) => format!("other unparsable {:?}", c[0]),
+                        }).collect::<Vec<_>>().join("|")
+                    }
+                    Outcome::Error(k) => format!("err {k}"),
+                    o => format!("other {}", o.tag()),
+                }
+            }
             "tostr" => {
                 // line 1: the text; line 2: the operand's sign (to render a NaN like the model does)
                 match &r.outcome {
@@ -711,6 +776,22 @@ fn main() {
     });
     // laws checked directly on the implementation's comparison answers
     for (j, imp) in jobs.iter().zip(results.iter()) {
+        if j.kind == "powroutes" {
+            // one case per route; all routes must give the same bits, the host's powf
+            let base_req = j.req.split(" #").next().unwrap().to_string();
+            let routes: Vec<&str> = j.req.split(" #").nth(1).unwrap().split(',').collect();
+            let parts: Vec<String> = if imp.contains('|') { imp.split('|').map(|x| x.to_string()).collect() } else { vec![imp.clone(); routes.len()] };
+            let spec = j.spec.as_ref().unwrap();
+            for (route, ans) in routes.iter().zip(parts.iter()) {
+                ctx.count("kind:pow-route");
+                ctx.count(&format!("form:pow-route:{route}"));
+                if ans != spec {
+                    ctx.spec_fail(format!("{} written as `{route}`: implementation `{ans}`, host powf `{spec}` (other routes: {imp})\n--- program\n{}", j.what, j.src));
+                }
+                ctx.case(format!("{base_req} #{route}"), ans.clone());
+            }
+            continue;
+        }
         ctx.count(&format!("kind:{}", j.kind));
         ctx.count(&format!("form:{}:{}", j.kind, j.form));
         let class = if imp.starts_with("err") { imp.replace(' ', "_") } else if imp.contains("nan") { "nan".into() } else if imp.starts_with("other") { "other".into() } else { "value".into() };
